@@ -104,6 +104,8 @@ func checkC02(c *Ctx) {
 
 	// C02.8 writer/reader agreement on the signed bytes
 	c02SignedBytes(c)
+	c02Equality(c)
+	c02SubgroupCheck(c)
 }
 
 func c02Verified(fl *Flow, v certVerifier, e SuccessExit, facts FactSet) bool {
@@ -810,6 +812,121 @@ func c02FindHighest(c *Ctx) {
 		}
 		c.Check(len(bad) == 0, "C02.7/anyqc", "VerifyAnyQC", p.FuncPos(va),
 			"every accepting exit verifies the block's own QC", "accepting exit at "+join(bad)+" without VerifyQuorumCert(block.QuorumCert())")
+		// with aggregate QCs enabled and an aggregate attached, the proposal is accepted only if the aggregate verifies and
+		// its high QC is the block's QC: every path to an accepting exit crosses "aggregates disabled", "no aggregate",
+		// or both "VerifyAggregateQC == nil" and "qc.Equals(highQC)"
+		noAgg := func(f Fact) bool {
+			return f.Op == "false" && strings.HasPrefix(f.L, "(*hs/core.RuntimeConfig).HasAggregateQC(") ||
+				f.Op == "==" && oneIsNil(f) && strings.HasSuffix(nonNil(f), "hs.ProposeMsg.AggregateQC")
+		}
+		for _, want := range []struct {
+			what string
+			ok   func(Fact) bool
+		}{
+			{"the aggregate QC is verified", func(f Fact) bool {
+				return f.Op == "==" && oneIsNil(f) && strings.HasPrefix(nonNil(f), "(*hs/security/cert.Authority).VerifyAggregateQC(") && strings.HasSuffix(nonNil(f), "#1")
+			}},
+			{"the block's QC equals the aggregate's high QC", func(f Fact) bool {
+				return f.Op == "true" && strings.HasPrefix(f.L, "(hs.QuorumCert).Equals(")
+			}},
+		} {
+			closes := func(fs []Fact) bool {
+				for _, f := range fs {
+					if noAgg(f) || want.ok(f) {
+						return true
+					}
+				}
+				return false
+			}
+			var open []string
+			for _, e := range successExits(fa, 0) {
+				if w := openPathTo(fa, e.Ret, closes); w != "" {
+					open = append(open, p.Pos(e.Ret.Pos()))
+				}
+			}
+			c.Check(len(open) == 0, "C02.7/aggqc", "VerifyAnyQC: "+want.what, p.FuncPos(va),
+				"no accepting exit is reachable with aggregate QCs enabled and an aggregate attached unless "+want.what,
+				"accepting exit at "+join(open)+" reachable with an attached aggregate QC although not "+want.what+": a leader can justify its proposal with a stale QC (Fast-HotStuff's vote rule trusts the aggregate's high QC)")
+		}
+	}
+}
+
+// c02Equality (C02.7/equals): QuorumCert.Equals, which ties a block's QC to the high QC of an aggregate, answers true only
+// for certificates with the same view, the same block hash and the same signature (bytes, or both absent).
+func c02Equality(c *Ctx) {
+	p := c.P
+	eq := p.Method("", "QuorumCert", "Equals")
+	if eq == nil {
+		c.Unresolved("C02.7/equals", "QuorumCert.Equals", "anchor missing")
+		return
+	}
+	fl := NewFlow(p, eq)
+	ways := trueEdges(fl)
+	var bad []string
+	side := func(prm, field string) func(string) bool {
+		return func(k string) bool { return strings.HasPrefix(k, prm) && strings.HasSuffix(k, "hs.QuorumCert."+field) }
+	}
+	both := func(w FactSet, field string) bool {
+		return hasCmp(w, "==", side("p0", field), side("p1", field))
+	}
+	for _, w := range ways {
+		if !both(w, "view") {
+			bad = append(bad, "a true answer without view == view")
+		}
+		if !both(w, "hash") {
+			bad = append(bad, "a true answer without hash == hash")
+		}
+		sigOK := both(w, "signature") || trueOf(w, func(k string) bool {
+			return strings.HasPrefix(k, "bytes.Equal(") && strings.Contains(k, "p0.hs.QuorumCert.signature") && strings.Contains(k, "p1.hs.QuorumCert.signature")
+		})
+		if !sigOK {
+			bad = append(bad, "a true answer without comparing the signatures")
+		}
+	}
+	c.Check(len(ways) > 0 && len(bad) == 0, "C02.7/equals", "QuorumCert.Equals: same view, same block, same signature", p.FuncPos(eq),
+		"true only under view == view, hash == hash and equal signature bytes (or both signatures absent)", join(bad))
+}
+
+// c02SubgroupCheck (C02.6/subgroup): the BLS subgroup test accepts a point only if multiplying it by the curve order
+// gives the identity, and the verifiers reject what it rejects.
+func c02SubgroupCheck(c *Ctx) {
+	p := c.P
+	sc := p.Method("security/crypto", "bls12Base", "subgroupCheck")
+	if sc == nil {
+		c.Exempt("C02.6/subgroup", "bls12Base.subgroupCheck", "-", "the helper does not exist on this tree")
+		return
+	}
+	fl := NewFlow(p, sc)
+	var bad []string
+	exits := successExits(fl, 0)
+	for _, e := range exits {
+		if !trueOf(e.Facts, func(k string) bool { return strings.Contains(k, ".IsZero(") }) && !branchDominates(fl, e.Ret, func(f Fact) bool { return f.Op == "true" && strings.Contains(f.L, ".IsZero(") }) {
+			bad = append(bad, p.Pos(e.Ret.Pos()))
+		}
+	}
+	c.Check(len(exits) > 0 && len(bad) == 0, "C02.6/subgroup", "bls12Base.subgroupCheck: accepts only points of the prime-order subgroup", p.FuncPos(sc),
+		"nil is returned only when order*point is the identity (IsZero)", "accepting exit at "+join(bad)+" without the IsZero test: signatures outside the subgroup are accepted")
+	// the verifiers fail when the check fails
+	n := 0
+	for _, name := range []string{"coreVerify", "coreAggregateVerify"} {
+		fn := p.Method("security/crypto", "bls12Base", name)
+		if fn == nil {
+			continue
+		}
+		ffl := NewFlow(p, fn)
+		var open []string
+		for _, e := range successExits(ffl, 0) {
+			n++
+			if !errNilOf(e.Facts, func(k string) bool { return strings.HasPrefix(k, shortName(sc)+"(") }) &&
+				!branchDominates(ffl, e.Ret, func(f Fact) bool { return f.Op == "==" && oneIsNil(f) && strings.HasPrefix(nonNil(f), shortName(sc)+"(") }) {
+				open = append(open, p.Pos(e.Ret.Pos()))
+			}
+		}
+		c.Check(len(open) == 0, "C02.6/subgroup", "bls12Base."+name+": the signature passed the subgroup check", p.FuncPos(fn),
+			"every accepting exit is under subgroupCheck(signature) == nil", "accepting exit at "+join(open)+" without a successful subgroup check")
+	}
+	if n == 0 {
+		c.Unresolved("C02.6/subgroup", "bls12Base.coreVerify", "no verifier with an accepting exit found")
 	}
 }
 
